@@ -23,6 +23,8 @@ package migration
 //@   assert before call Evict: #target: $arg2 == pod && $arg1 == job
 //@   assert before call Evict: #boundcheck: calls("abortJobIfReservationBoundByAnotherPod") == 1 && !aborted
 //@   assert before call Evict: #first: calls("Evict") == 1
+//@   assert before call Evict: #nothingPersistedYet: calls("updateCondition") == 0 && calls("Update") == 0
+//@   assert at return: #markAfter: calls("Evict") == 1 && lastresult("Evict") == nil ==> calls("updateCondition") == 1 && cond.Type == sev1alpha1.PodMigrationJobConditionEviction && cond.Status == sev1alpha1.PodMigrationJobConditionStatusFalse && cond.Reason == sev1alpha1.PodMigrationJobReasonEvicting && result2 == lastresult("updateCondition")
 
 // ---- abort helpers: every abortJobBy* leaves the in-memory job in phase Failed with its reason, touches only
 // the three status fields, and writes the status to the API server only after the phase has been set.
@@ -105,22 +107,35 @@ package migration
 //@   assert before call abortJobByMissingReservation: #missing: err != nil
 //@   modifies job.Status.Phase, job.Status.Reason, job.Status.Message
 
-// Aborts (phase Failed, reason ForbiddenMigratePod) only when the pod was read and the reservation's node is
-// non-empty and equal to the pod's node; otherwise the job is untouched and the error is nil.
+// Same-node gate. Aborts (true; phase Failed, reason ForbiddenMigratePod) exactly when the pod was read and the reservation's
+// node is non-empty and equal to the pod's node. A read error other than NotFound is returned as (false, that error) with the
+// job untouched and no status write: the gate is NOT passed. (false, nil) means: the pod is gone (NotFound), or the
+// reservation has no node, or the nodes differ.
 //@ func (*Reconciler).abortJobIfReserveOnSameNode [C17]
 //@   requires r != nil && job != nil
-//@   ensures #pass: !result0 ==> result1 == nil && job.Status.Phase == old(job.Status.Phase) && job.Status.Reason == old(job.Status.Reason) && job.Status.Message == old(job.Status.Message)
+//@   ensures #pass: !result0 ==> job.Status.Phase == old(job.Status.Phase) && job.Status.Reason == old(job.Status.Reason) && job.Status.Message == old(job.Status.Message)
 //@   ensures #abort: result0 ==> job.Status.Phase == sev1alpha1.PodMigrationJobFailed && job.Status.Reason == sev1alpha1.PodMigrationJobReasonForbiddenMigratePod
 //@   assert before call Update: #samenode: scheduledNodeName == reservationObj.GetScheduledNodeName() && scheduledNodeName != "" && scheduledNodeName == pod.Spec.NodeName && job.Status.Phase == sev1alpha1.PodMigrationJobFailed
-//@   assert before call GetScheduledNodeName: #read: err == nil
+//@   assert before call GetScheduledNodeName: #read: err == nil && lastresult("Get") == nil
+//@   assert at return: #converse: lastresult("Get") == nil && reservationObj.GetScheduledNodeName() != "" && reservationObj.GetScheduledNodeName() == pod.Spec.NodeName ==> result0 && job.Status.Phase == sev1alpha1.PodMigrationJobFailed && job.Status.Reason == sev1alpha1.PodMigrationJobReasonForbiddenMigratePod
+//@   assert at return: #passmeans: !result0 && result1 == nil ==> (lastresult("Get") != nil && calls("IsNotFound") == 1 && lastresult("IsNotFound")) || (lastresult("Get") == nil && (reservationObj.GetScheduledNodeName() == "" || reservationObj.GetScheduledNodeName() != pod.Spec.NodeName))
+//@   assert at return: #transient: lastresult("Get") != nil && calls("IsNotFound") == 1 && !lastresult("IsNotFound") ==> !result0 && result1 == lastresult("Get") && calls("Update") == 0 && calls("GetScheduledNodeName") == 0
+//@   assert at return: #geterr: lastresult("Get") != nil ==> calls("IsNotFound") == 1 && !result0 && calls("Update") == 0
 //@   modifies job.Status.Phase, job.Status.Reason, job.Status.Message
 
 // nil result: the phase is unchanged; the same-node gate ran (exactly once, not aborted, no error) before the
 // job is marked ReservationScheduled=True, and that mark is only set for a non-empty node recorded in the job.
+// An error (or abort) from the gate is returned and nothing is recorded: Status.NodeName and the condition list are
+// untouched and updateCondition (the only status write here) is not reached.
 //@ func (*Reconciler).prepareJobWithReservationScheduleSuccess [C17]
 //@   requires r != nil && job != nil
 //@   ensures #ok: result == nil ==> job.Status.Phase == old(job.Status.Phase)
 //@   ensures #phase: job.Status.Phase == old(job.Status.Phase) || (job.Status.Phase == sev1alpha1.PodMigrationJobFailed && result != nil)
+//@   ensures #gate: result == nil ==> reservationObj.GetScheduledNodeName() == "" || old(job.Status.NodeName) != "" || calls("abortJobIfReserveOnSameNode") == 1 || (calls("abortJobIfReserveOnSameNode") == 0 && calls("updateCondition") == 0 && job.Status.NodeName == "")
+//@   ensures #recorded: old(job.Status.NodeName) == "" && job.Status.NodeName != "" ==> job.Status.NodeName == reservationObj.GetScheduledNodeName()
+//@   assert at return: #gateErr: calls("abortJobIfReserveOnSameNode") == 1 && lastresult("abortJobIfReserveOnSameNode", 1) != nil ==> result == lastresult("abortJobIfReserveOnSameNode", 1) && job.Status.NodeName == old(job.Status.NodeName) && job.Status.NodeName == "" && len(job.Status.Conditions) == old(len(job.Status.Conditions)) && arr(job.Status.Conditions) == old(arr(job.Status.Conditions)) && calls("updateCondition") == 0 && calls("Update") == 0
+//@   assert at return: #gateAbort: calls("abortJobIfReserveOnSameNode") == 1 && lastresult("abortJobIfReserveOnSameNode", 0) ==> result != nil && job.Status.NodeName == "" && calls("updateCondition") == 0
+//@   assert at return: #markOnlyAfterGate: calls("updateCondition") == 1 ==> calls("abortJobIfReserveOnSameNode") == 1 && !lastresult("abortJobIfReserveOnSameNode", 0) && lastresult("abortJobIfReserveOnSameNode", 1) == nil && result == lastresult("updateCondition")
 //@   assert before call abortJobIfReserveOnSameNode: #need: scheduledNodeName != "" && scheduledNodeName == reservationObj.GetScheduledNodeName() && job.Status.NodeName == "" && $arg2 == reservationObj
 //@   modifies job.Status, allelems(job.Status.Conditions), all(sev1alpha1.PodMigrationJobCondition).LastTransitionTime, all(sev1alpha1.PodMigrationJobStatus).Conditions
 //@   assert before call updateCondition: #checked: calls("abortJobIfReserveOnSameNode") == 1 && !aborted && err == nil && job.Status.NodeName == scheduledNodeName && scheduledNodeName != "" && job.Status.Phase == old(job.Status.Phase)
@@ -141,7 +156,10 @@ package migration
 //@   assert before call evictPod: #job: $arg1 == job
 //@   assert before call evictPod: #notpending: !resPending(reservationObj)
 //@   assert before call evictPod: #notexpired: !reservation.IsReservationExpired(reservationObj)
-//@   assert before call evictPod: #scheduled: reservation.IsReservationScheduled(reservationObj) || (preemptComplete && reservationObj.NeedPreemption() && preemption != nil)
+//@   assert before call evictPod: #scheduled: lastresult("IsReservationScheduled") || (preemptComplete && reservationObj.NeedPreemption() && preemption != nil)
+//@   assert before call evictPod: #nodeNonEmpty: lastresult("IsReservationScheduled") ==> reservationObj.GetScheduledNodeName() != ""
+//@   assert before call evictPod: #preparedOK: lastresult("prepareJobWithReservationScheduleSuccess") == nil
+//@   assert at return: #prepareErr: calls("prepareJobWithReservationScheduleSuccess") == 1 && lastresult("prepareJobWithReservationScheduleSuccess") != nil ==> result1 == lastresult("prepareJobWithReservationScheduleSuccess") && calls("evictPod") == 0 && calls("waitForPendingPodScheduled") == 0
 //@   assert before call evictPod: #prepared: calls("prepareJobWithReservationScheduleSuccess") == 1 && job.Status.Phase == sev1alpha1.PodMigrationJobRunning
 //@   assert before call evictPod: #noabort: calls("abortJobByMissingReservation") == 0 && calls("abortJobByReservationExpired") == 0 && calls("abortJobByReservationUnschedulable") == 0 && calls("createReservation") == 0
 //@   assert before call evictPod: #scheduledpod: !util.IsMigratePendingPod(reservationObj)
@@ -150,4 +168,4 @@ package migration
 //@   ensures #succeeded: job.Status.Phase == sev1alpha1.PodMigrationJobSucceeded && old(job.Status.Phase) != sev1alpha1.PodMigrationJobSucceeded ==> calls("evictPod") == 1 || calls("waitForPendingPodScheduled") == 1
 //@   assert before call createReservation: #noref: !hasReservationRef(job) && !directMode(r, job) && calls("evictPod") == 0
 //@   assert before call abortJobByReservationExpired: #isexpired: reservation.IsReservationExpired(reservationObj) && !resPending(reservationObj)
-//@   assert before call abortJobByReservationUnschedulable: #unsched: !reservation.IsReservationScheduled(reservationObj) && !resPending(reservationObj) && !reservation.IsReservationExpired(reservationObj)
+//@   assert before call abortJobByReservationUnschedulable: #unsched: !lastresult("IsReservationScheduled") && !resPending(reservationObj) && !reservation.IsReservationExpired(reservationObj)
